@@ -83,13 +83,18 @@ Eps(v) == IF v.t = "real" /\ v.c = "q25n" THEN 1 ELSE 0          \* an infinites
 \* offset of a number near an end of the 64-bit range: INT MAX + i / MIN + i, REAL 2^63 = MAX + 1, REAL -2^63 = MIN + 0
 EdgeOff(v) == IF v.t = "int" THEN v.i ELSE IF v.c = "p63" THEN 1 ELSE IF v.c = "p53b" THEN 2 ELSE 0
 
+\* na / da against nb / db (denominators positive) without leaving TLC's 32-bit integers: whole parts first (\div rounds down), then the remainders
+CmpFrac(na, da, nb, db) ==
+  LET qa == na \div da  qb == nb \div db
+  IN IF qa # qb THEN CmpInt(qa, qb) ELSE CmpInt((na % da) * db, (nb % db) * da)
+
 \* numeric comparison by value, NaN equal to itself and above everything (total)
 CmpNum(a, b) ==
   LET ca == NumClass(a)  cb == NumClass(b)
   IN IF ca # cb THEN CmpInt(ClassPos(ca), ClassPos(cb))
      ELSE IF ca \in {1, 3, 23} THEN CmpInt(EdgeOff(a), EdgeOff(b))
      ELSE IF ca = 22 THEN (IF a.b # b.b THEN CmpInt(a.b, b.b) * (-1) ELSE CmpInt(a.i, b.i))        \* base 4 (2^31) below base 2 (2^32)
-     ELSE IF ca = 2 THEN (LET c == CmpInt(NumN(a) * NumD(b), NumN(b) * NumD(a)) IN IF c # 0 THEN c ELSE CmpInt(Eps(a), Eps(b)))
+     ELSE IF ca = 2 THEN (LET c == CmpFrac(NumN(a), NumD(a), NumN(b), NumD(b)) IN IF c # 0 THEN c ELSE CmpInt(Eps(a), Eps(b)))
      ELSE 0
 
 TypeRank(v) == CASE v.t = "null" -> 0 [] v.t = "int" -> 1 [] v.t = "real" -> 1 [] v.t = "bool" -> 3
